@@ -15,6 +15,11 @@ TEXT = {
             "step; order rejections must leave the snapshot unchanged.",
             "Trusts the op interpreter's knowledge of which calls are documented rejections; depth<=3, shapes<=6; unowned "
             "trees depth<=2 (see DESIGN section 5)."),
+    "C03": ("Hypothesis PBT over accessor histories vs a dict model (stateful testing with aliasing handles)",
+            "Generated histories of up to 30 reads / references / writes / handle re-use / position lookups / start_pos "
+            "shortcuts on trees of depth 1-3; the full content is compared with a dict model after every step and every "
+            "read must leave the raw snapshot and rank lists unchanged; rank-0 tensors in a second part.",
+            "Trusts the dict model and the raw snapshot observer; depth<=3, shapes<=5; start_pos restricted to legal values."),
     "C04": ("Hypothesis PBT + exhaustive small domain: set-algebra oracle over presented coordinates, payload identity",
             "Generated k<=4 operand sets (leaf / 2-level, owned / unowned, C / U format, int and tuple coordinates of equal "
             "and mixed arity) checked against coordinate-set algebra, payload identity (is), fresh defaults, masks, "
